@@ -287,10 +287,11 @@ func shrink(p Prop, driver string, ops []string, f *failure, budget int) ([]stri
 	}
 	cur, curF := ops, f
 	n := 2
-	for len(cur) >= 2 && budget > 0 {
+	deadline := time.Now().Add(45 * time.Second) // on a broken tree every attempt may cost a timeout
+	for len(cur) >= 2 && budget > 0 && time.Now().Before(deadline) {
 		chunk := (len(cur) + n - 1) / n
 		reduced := false
-		for start := 0; start < len(cur) && budget > 0; start += chunk {
+		for start := 0; start < len(cur) && budget > 0 && time.Now().Before(deadline); start += chunk {
 			end := start + chunk
 			if end > len(cur) {
 				end = len(cur)
@@ -416,8 +417,22 @@ func Run(p Prop, cfg Config) (*Output, error) {
 
 	runs := make([]caseRun, len(cases))
 	seen := map[string]bool{}
+	failing := 0
 	for i, ops := range cases {
+		if failing >= 12 && cfg.ReplayFile == "" {
+			// enough concrete failing inputs: on a broken tree every further failing case may cost
+			// a timeout, and the verdict is already decided
+			Notes["stopped_early"] = fmt.Sprintf("after %d of %d cases: %d cases already fail the property oracle", i, len(cases), failing)
+			cases, runs = cases[:i], runs[:i]
+			break
+		}
 		runs[i] = runCase(p, ops)
+		for _, r := range runs[i].res {
+			if _, isKnown := known[r.Sig]; r.Fail != "" && !isKnown {
+				failing++
+				break
+			}
+		}
 		out.Evaluations += len(ops)
 		h := hashOps(ops)
 		if !seen[h] {
